@@ -57,6 +57,9 @@ def gen(rng):
     for _ in range(rng.choice([3, 6, 10, rng.randrange(1, 26)])):
         k = rng.random()
         i = rng.randrange(n)
+        if rng.random() < 0.07:
+            acts.append(rng.choice(["ostop", "ostart"]))
+            continue
         acts.append("start" if k < 0.22 else "stop" if k < 0.4 else f"send:{i}" if k < 0.6 else f"occ:{i}" if k < 0.72 else f"rel:{i}" if k < 0.82
                     else "enter" if k < 0.9 else "leave")
     return {"ports": n, "acts": acts}
@@ -90,6 +93,10 @@ def streams(ctx):
     races = [{"ports": n, "acts": ["start", f"sstop:{i}:{k}", f"send:{i}", "start", f"sstop:{(i + 1) % n}:{(k + 3) % 8}"]}
              for n in (1, 3) for i in range(n) for k in range(8)]
     ctx.run_cases(LIFE, "stop-while-a-broadcast-is-on-its-way", races if not ctx.quick else races[::1], exhaustive=True, sample_every=11)
+    twin = [{"ports": n, "acts": acts} for n in (1, 3) for acts in (
+        ["start", "ostop", "send:0", "ostart", "send:0", "stop", "send:0"],
+        ["ostop", "start", "send:0", "ostop", "send:0", "ostart", "ostop", "send:0", "stop", "ostart", "start", "send:0"])]
+    ctx.run_cases(LIFE, "a-second-bridge-object-on-the-same-ports", twin, exhaustive=True)
     ctx.run_cases(LIFE, "random-action-sequences", [gen(rng) for _ in range(ctx.n(110, 2500))], exhaustive=False, sample_every=50)
 
 
